@@ -190,12 +190,13 @@ def read_events(path):
 
 
 def sim_link(argv, workdir, plan, tag="run", env_extra=None, timeout=120, wild=None, pin=True,
-             wait_descendants=True, preexec=None, pass_fds=()):
+             wait_descendants=True, preexec=None, pass_fds=(), ctl_dir=None):
     """Runs the simulated wild with `argv` (arguments after the program name) in `workdir` under
     `plan`. Returns a RunResult. Waits for wild's background (forked) worker too."""
     wild = wild or SIM_WILD
-    out_prefix = os.path.join(workdir, f"{tag}.sim")
-    plan_path = os.path.join(workdir, f"{tag}.plan")
+    ctl = ctl_dir or workdir
+    out_prefix = os.path.join(ctl, f"{tag}.sim")
+    plan_path = os.path.join(ctl, f"{tag}.plan")
     for ext in (".events", ".decisions", ".summary"):
         try:
             os.unlink(out_prefix + ext)
